@@ -461,10 +461,8 @@ func (d *Data) TokenReader() xml.TokenReader {
 					for {
 						idx := strings.IndexAny(typed, "\n\r")
 						if idx == -1 {
-							if len(typed) > 0 {
-								lines = append(lines, typed)
-								break
-							}
+							lines = append(lines, typed)
+							break
 						}
 						lines = append(lines, typed[:idx])
 						typed = typed[idx+1:]
